@@ -38,6 +38,7 @@ type Prop struct {
 	Panics   bool // feasible panics in these jobs violate the property
 	Progress bool // deadlock / spin / lock-left-held findings violate the property
 	Lockset  bool // writes to a guarded cell without its mutex violate the property
+	Races    bool // lockset race candidates (confirmed by the race detector) violate the property
 	Level    string
 	Assume   []string
 	Bounds   map[string]string
@@ -234,6 +235,9 @@ func cmdCheck(args []string) int {
 			}
 		}
 		tries := 40
+		if v.f.Kind == "race" {
+			tries = 3
+		}
 		if v.f.Kind == "lockset" {
 			tries = -1 // lock-discipline obligation: nothing a single-goroutine native run could show
 		}
@@ -265,6 +269,8 @@ func cmdCheck(args []string) int {
 			violations++
 			vlines = append(vlines, fmt.Sprintf("VIOLATION property=%s replay=%s", prop.ID, r.path))
 			ev.violationNotes = append(ev.violationNotes, fmt.Sprintf("%s in %s: %s (replayed natively: %s)", q.kind, q.job.Entry, q.label, r.outcome))
+		} else if q.kind == "race" {
+			ev.unconfirmedRaces = append(ev.unconfirmedRaces, fmt.Sprintf("%s: %s [%s]", q.job.Entry, q.label, r.outcome))
 		} else {
 			inconclusive = append(inconclusive, fmt.Sprintf("%s: solver counterexample for %s %q did not reproduce natively (%s %s) — encoding or stub problem, replay file %s", q.job.Entry, q.kind, q.label, r.outcome, r.err, r.path))
 		}
@@ -329,6 +335,8 @@ func (p *Prop) relevant(f Finding) bool {
 		return p.Progress
 	case "lockset":
 		return p.Lockset
+	case "race":
+		return p.Races
 	case "unwind":
 		return true
 	}
